@@ -1,7 +1,7 @@
 ------------------------------- MODULE MC_tcp -------------------------------
-(* Bounded instance of the TCP life-cycle: all scripts of up to MaxFaults faults over the five fault kinds,  *)
+(* Bounded instance of the TCP life-cycle: all scripts of up to MaxFaults faults over the six fault kinds,  *)
 (* then a healthy connection; clock in steps of 1 s up to MaxClock.  Liveness is checked on the full        *)
 (* (unconstrained) instance: the clock bound is part of the model, not a state constraint.                 *)
 EXTENDS Tcp
-FaultKinds == {"refuse", "close", "frames", "partial", "junk"}
+FaultKinds == {"refuse", "close", "frames", "partial", "partialfin", "junk"}
 =============================================================================
